@@ -595,8 +595,15 @@ pub fn slice_f_run<S: Sch>(rec: &mut Rec) {
 /// numeric / listing order) opened together at one point label, by `open`/`check` on the full list and by a batch
 /// whose second label takes every other polynomial; prover lists in listing order and reversed.
 pub fn slice_g_run<S: Sch>(rec: &mut Rec) {
+    // group sizes on both sides of 16 and 32 (accumulation code may switch paths from some group size on)
+    for n in [12usize, 20, 33] {
+        slice_g_size::<S>(rec, n);
+    }
+}
+
+fn slice_g_size<S: Sch>(rec: &mut Rec, n: usize) {
     let cfg = slice_b::<S>();
-    let ids: Vec<String> = ["listing", "reversed"].iter().map(|o| format!("{}/G/twelve-labels/{}", S::NAME, o)).collect();
+    let ids: Vec<String> = ["listing", "reversed"].iter().map(|o| format!("{}/G/{}-labels/{}", S::NAME, n, o)).collect();
     let mine: Vec<bool> = ids.iter().map(|id| rec.take(id)).collect();
     if !mine.iter().any(|m| *m) {
         return;
@@ -608,7 +615,7 @@ pub fn slice_g_run<S: Sch>(rec: &mut Rec) {
     let shapes = crate::source::shapes_short::<S>(&cfg, rec.seed);
     let base = slice_b_polys::<S>(&cfg, rec.seed);
     let mut polys: Vec<LP<S>> = Vec::new();
-    for k in 0..12usize {
+    for k in 0..n {
         // members alternate between the three slice-B polynomials (plain, bounded + hiding, zero with a bound) and the short shapes
         let src = if k % 4 == 3 { lp::<S>("x", shapes[k % shapes.len()].1.clone(), None, None) } else { base[k % 3].clone() };
         polys.push(lp::<S>(&format!("w{}", k), src.polynomial().clone(), src.degree_bound(), src.hiding_bound()));
@@ -617,7 +624,7 @@ pub fn slice_g_run<S: Sch>(rec: &mut Rec) {
     let c = match commit_set::<S>(&keys, polys, rec.seed, 0) {
         Ok(c) => c,
         Err(o) => {
-            fail(rec, S::NAME, "commit", "twelve-labels", &ids[0], format!("commit failed: {}", o.short()));
+            fail(rec, S::NAME, "commit", "many-labels", &ids[0], format!("commit failed: {}", o.short()));
             return;
         }
     };
@@ -628,20 +635,20 @@ pub fn slice_g_run<S: Sch>(rec: &mut Rec) {
         rec.dim("scheme", S::NAME);
         rec.dim("slice", "G");
         rec.op(4);
-        let order: Vec<usize> = if oi == 0 { (0..12).collect() } else { (0..12).rev().collect() };
+        let order: Vec<usize> = if oi == 0 { (0..n).collect() } else { (0..n).rev().collect() };
         match open_single::<S>(&keys, &c, &order, &labels[2].1, 0, rec.seed, 0) {
             Ok(s1) => {
                 let comms: Vec<&LCm<S>> = order.iter().map(|i| &c.comms[*i]).collect();
                 let d = check_single::<S>(&keys, &comms, &s1.point, &s1.values, &s1.proof, 0, rec.seed, 0);
                 rec.class(d.class());
                 if !d.accepted() {
-                    fail(rec, S::NAME, "check", "twelve-labels", id, format!("honest opening of twelve polynomials at one point not accepted: {}", d.short()));
+                    fail(rec, S::NAME, "check", "many-labels", id, format!("honest opening of many polynomials at one point not accepted: {}", d.short()));
                 }
             }
-            Err(o) => fail(rec, S::NAME, "open", "twelve-labels", id, format!("open failed: {}", o.short())),
+            Err(o) => fail(rec, S::NAME, "open", "many-labels", id, format!("open failed: {}", o.short())),
         }
         let mut qs = QuerySet::<S::Pt>::new();
-        for k in 0..12usize {
+        for k in 0..n {
             qs.insert((format!("w{}", k), (labels[0].0.clone(), labels[0].1.clone())));
             if k % 2 == 1 {
                 qs.insert((format!("w{}", k), (labels[2].0.clone(), labels[2].1.clone())));
@@ -653,7 +660,7 @@ pub fn slice_g_run<S: Sch>(rec: &mut Rec) {
                 let d = check_batch::<S>(&keys, &comms, &b.qs, &b.evals, &b.proof, 0, rec.seed, 0);
                 rec.class(d.class());
                 if !d.accepted() {
-                    fail(rec, S::NAME, "batch_check", "twelve-labels", id, format!("honest batch over twelve labelled polynomials not accepted: {}", d.short()));
+                    fail(rec, S::NAME, "batch_check", "many-labels", id, format!("honest batch over many labelled polynomials not accepted: {}", d.short()));
                 }
                 // and one false claim in the lexicographically LAST group member is still caught
                 let mut bad = b.evals.clone();
@@ -661,11 +668,11 @@ pub fn slice_g_run<S: Sch>(rec: &mut Rec) {
                     *v += <S::F as ark_ff::One>::one();
                     let d2 = check_batch::<S>(&keys, &comms, &b.qs, &bad, &b.proof, 0, rec.seed, 0);
                     if d2.accepted() {
-                        fail(rec, S::NAME, "batch_check", "twelve-labels-false-claim-accepted", id, "value of w9 + 1 accepted".into());
+                        fail(rec, S::NAME, "batch_check", "many-labels-false-claim-accepted", id, "value of w9 + 1 accepted".into());
                     }
                 }
             }
-            Err(o) => fail(rec, S::NAME, "batch_open", "twelve-labels", id, format!("batch_open failed: {}", o.short())),
+            Err(o) => fail(rec, S::NAME, "batch_open", "many-labels", id, format!("batch_open failed: {}", o.short())),
         }
     }
 }
